@@ -98,3 +98,22 @@ func init() {
 		Trusted: []string{"T1 go toolchain, solvers", "T2 govc", "T3 reflect.Value model (Set* truncate to kind, Int/Uint read the content, Convert is Go conversion)", "A1 typing precondition", "A2 genValue/genValueOutput denote operand/destination", "T7 float32 double rounding"},
 	})
 }
+
+func init() {
+	register(&PropDef{
+		ID: "C03", Patterns: []string{"./interp"}, Specs: []string{"ops", "consts"},
+		Covered: []string{"representableConst for every integer kind and every integer constant", "constant folders: untyped operands fold to go/constant's operation with the spec token (QUO_ASSIGN exactly for untyped integer results); typed operands compute the kind's operation", "typed constant overflow must be rejected (known finding)"},
+		Uncov:   []string{"float/complex representability (rounding inside go/constant)", "convertConst/convertUntyped kind routing", "iota bookkeeping and implicit repetition (ast/gta/cfg walks)", "literal parsing"},
+		Trusted: []string{"T1 go toolchain, solvers", "T2 govc", "T4 go/constant computes exact constant arithmetic (BinaryOp/UnaryOp/Shift/ToInt uninterpreted functions of the token; BitLen(x) <= k iff |x| < 2^k)", "T3 reflect.Value model"},
+	})
+}
+
+func init() {
+	register(&PropDef{
+		ID: "C19", Patterns: []string{"./interp"},
+		Extra: func(r *Run) { r.debuggerFrame() },
+		Covered: []string{"both loops of runCfg apply exec closures only behind the run-id gate (shared with C09)", "Debugger.exec/enterCall/exitCall assign only debugger state (f.debug, goroutine records, dbg.*)", "setBreakOnLine/setBreakOnCall set exactly their own flag; the visitor of SetBreakpoints keeps function breakpoints in the line pass and vice versa"},
+		Uncov:   []string{"breakpoint reporting order and node tracking by closure-pointer comparison", "event delivery and the terminate event", "stepping requests"},
+		Trusted: []string{"T1 go toolchain, solvers", "T2 govc", "A3 sequential semantics"},
+	})
+}
